@@ -1,3 +1,5 @@
 SPECIFICATION Spec
+CONSTANTS
+  Mut = ""
 INVARIANTS InvEncapsulated Emit
 CHECK_DEADLOCK FALSE
